@@ -166,6 +166,10 @@ func pureMapBased(s *ukit.Spec) bool {
 // compareBehaviour: original and rebuilt agree on accept/reject and on the wire form of what they accept.
 func (c *checker) compareBehaviour(spec *ukit.Spec, orig, rebuilt schema.Type, how string) {
 	raws := append(ukit.ValidValues(spec, 3), ukit.RawValues(spec)...)
+	// the first few accepted inputs once more at the end: by then the caller has overwritten every value the original
+	// handed out (below), which must not have changed what the original does
+	raws = append(raws, ukit.ValidValues(spec, 3)...)
+	raws = append(raws, map[string]any{"v": map[string]any{}}, map[string]any{})
 	pure := pureMapBased(spec)
 	for _, raw := range raws {
 		c.res.Evaluations++
@@ -183,6 +187,9 @@ func (c *checker) compareBehaviour(spec *ukit.Spec, orig, rebuilt schema.Type, h
 				c.fail("rebuilt schema unserializes to another value than the original ["+featureTag(spec)+"]", fmt.Sprintf("rebuilt via %s; input %s: original -> %s, rebuilt -> %s", how, ukit.Show(raw), ukit.Show(uo), ukit.Show(ur)))
 				return
 			}
+			// the caller owns what it was handed: overwrite the original's result in place (only the original's, so that a
+			// value that shares memory with the schema shows as a difference from the rebuilt one on a later input)
+			ukit.Scribble(uo)
 		})
 	}
 }
